@@ -114,7 +114,7 @@ def r1(ctx):
                     if nb in cfg.reachable(na, avoid={head}, skip_labels=("exc", "raise")) or na in cfg.reachable(nb, avoid={head}, skip_labels=("exc", "raise")):
                         excl = False
             ctx.check(excl, "C07.R1", fi, "at most one resolution per sequence number per pass", "ack and timeout of one datagram are exclusive branches")
-    callers = sorted((f.qual) for (f, c) in package_calls(ctx.repo, "_handle_ack"))
+    callers = sorted({f.qual for (f, c) in package_calls(ctx.repo, "_handle_ack")})
     ctx.check(callers == [BITS], "C07.R1", ack, "callers of _handle_ack", witness=callers)
     callers = sorted((f.qual) for (f, c) in package_calls(ctx.repo, "_handle_timeout"))
     ctx.check(callers == sorted([BITS, "connection:ConnectionBase._check_timeout", "connection:ServerClientConnection.update"]), "C07.R1", tmo, "callers of _handle_timeout", witness=callers)
@@ -150,16 +150,28 @@ def r2(ctx):
     hp = bits.params[1]
     acks = calls_named(bits, "_handle_ack")
     if ctx.require("C07.R2", bits, "_handle_ack call in _handle_ack_bits", len(acks), 1):
-        c = acks[0]
-        ifs = [p for p in _parents(c, bits.node) if isinstance(p, ast.If)]
-        t = norm(ifs[0].test) if ifs else ""
-        # diff := hdr.ack.diff(seqnum); test mentions hdr.ack_bits
-        dv = None
-        for n in walk_own(bits.node):
-            if isinstance(n, ast.Assign) and isinstance(n.value, ast.Call) and norm(n.value.func) == "%s.ack.diff" % hp and norm(n.value.args[0]) == norm(c.args[0]):
-                dv = norm(n.targets[0])
-        ok = dv is not None and ("%s == 0" % dv) in t and ("%s.ack_bits" % hp) in t and c in [x for s in ifs[0].body for x in ast.walk(s)]
-        ctx.check(ok, "C07.R2", bits, "success is reported only under the ack test on the peer's (ack, ack_bits)", witness=t, line=c.lineno)
+        # diff := hdr.ack.diff(seqnum); every call of _handle_ack is control-dependent on a test of that offset against 0 or of
+        # the peer's bitmap (the exact geometry of the test is decided on cells by the shared rule C08.R4 = C07.R9)
+        for c in acks:
+            dv = None
+            for n in walk_own(bits.node):
+                if isinstance(n, ast.Assign) and isinstance(n.value, ast.Call) and norm(n.value.func) == "%s.ack.diff" % hp and norm(n.value.args[0]) == norm(c.args[0]):
+                    dv = norm(n.targets[0])
+            # edge cut: without the true-outcomes of the leaf tests `diff == 0` and `... hdr.ack_bits ...` no path reaches the call
+            cut = {}
+            for n in cfg.nodes:
+                if n.kind == "test" and n.ast is not None:
+                    t = norm(n.ast)
+                    if dv is not None and t in ("%s == 0" % dv, "0 == %s" % dv):
+                        cut[n.id] = "T"
+                    elif dv is not None and t in ("%s != 0" % dv, "0 != %s" % dv):
+                        cut[n.id] = "F"
+                    elif ("%s.ack_bits" % hp) in t:
+                        cut[n.id] = "T"
+            reach = cfg.reachable(cfg.entry, edge_ok=lambda a, b_, label: not (a.id in cut and label == cut[a.id]))
+            ok = dv is not None and bool(cut) and cfg.node_of(c).id not in reach
+            ctx.check(ok, "C07.R2", bits, "success is reported only under the ack test on the peer's (ack, ack_bits)",
+                      witness=[norm(cfg.nodes[k].ast) for k in cut], line=c.lineno)
     tms = calls_named(bits, "_handle_timeout")
     for c in tms:
         conds = [(norm(t), p) for (t, p) in cfg.conditions_of(cfg.node_of(c).id)]
